@@ -529,21 +529,28 @@ def refW (st : St) (win : Id) : Out St := do
 
 /-! ## window construction and the small mutators -/
 
+/-- `while(parent->parent) { rect.top += parent->rect.top; rect.left += parent->rect.left; parent = parent->parent; }`
+    of `TICKIT_WINDOW_ROOT_PARENT`. -/
+def climbParents (st : St) : Nat → Id → Rect → Out (Id × Rect)
+  | 0, _, _ => .fuel
+  | f + 1, p, r => do
+    let pw ← getW st p
+    match pw.parent with
+    | none => pure (p, r)
+    | some pp => climbParents st f pp { r with top := r.top + pw.rect.top, left := r.left + pw.rect.left }
+
+/-- The parent and rectangle `tickit_window_new` actually uses. -/
+def resolveParent (st : St) (parent : Id) (rect : Rect) (rootParent : Bool) : Out (Id × Rect) :=
+  if rootParent then climbParents st (chainFuel st.tree) parent rect else pure (parent, rect)
+
 /-- `tickit_window_new`: returns the new id. -/
 def newWin (st : St) (parent : Id) (rect : Rect) (hidden lowest rootParent steal : Bool) : Out (St × Id) := do
-  let rec climb : Nat → Id → Rect → Out (Id × Rect)
-    | 0, _, _ => .fuel
-    | f + 1, p, r => do
-      let pw ← getW st p
-      match pw.parent with
-      | none => pure (p, r)
-      | some pp => climb f pp { r with top := r.top + pw.rect.top, left := r.left + pw.rect.left }
-  let (parent, rect) ← if rootParent then climb (chainFuel st.tree) parent rect else pure (parent, rect)
+  let pr ← resolveParent st parent rect rootParent
   let id := st.tree.wins.size
-  let w : Win := { parent := some parent, rect := rect, isVisible := !hidden, stealInput := steal }
+  let w : Win := { parent := some pr.1, rect := pr.2, isVisible := !hidden, stealInput := steal }
   let t : Tree := { st.tree with wins := st.tree.wins.push w }
-  let wx := (st.wx ++ Array.replicate (id - st.wx.size) ({} : WinX)).push { cparent := some parent }
-  let t ← doHC t (if lowest then .insertLast else .insertFirst) parent id
+  let wx := (st.wx ++ Array.replicate (id - st.wx.size) ({} : WinX)).push { cparent := some pr.1 }
+  let t ← doHC t (if lowest then .insertLast else .insertFirst) pr.1 id
   pure ({ st with tree := t, wx := wx }, id)
 
 /-- `tickit_window_show` (without the damage). -/
